@@ -138,13 +138,13 @@ fn benign_space(ctx: &Ctx, sizes: &[usize]) {
     let mut cases = vec![];
     for &n in sizes {
         for f in FAMILIES.iter() {
-            for order in 0..2usize {
+            for order in [0usize, 1, 3, 5, 6] {
                 cases.push((n, *f, order));
             }
         }
     }
     ctx.lattice(
-        &format!("benign families (6 kinds) of orders {:?} x 4 rhs x 3 guesses x 3 tolerances x budgets {{0,1,n,10n}} x 5 solvers", sizes),
+        &format!("benign families (6 kinds, 5 construction paths incl. explicitly stored zeros) of orders {:?} x 4 rhs x 3 guesses x 3 tolerances x budgets {{0,1,n,10n}} x 5 solvers", sizes),
         cases.len() as u64,
         |i| format!("{:?}", cases[i as usize]),
         |i, acc| {
